@@ -156,6 +156,26 @@ def run(env):
             ck2 = {"ctx": ctx, "op": "check_proof", "args": [pk, gens, pr2[0], es, sh2[0], "x:"], "tag": "cross"}
             if env.harness([ck2], features=("rayon",), env_extra={"RAYON_NUM_THREADS": "16"})[0] is not True:
                 env.violation("proof produced by the sequential build is rejected by the rayon build on %s N=%d" % (ctx, n), {"kind": "battery", "case": ck2})
+    # randomised list operations of the rayon build stay position-aligned with their inputs: decryption factors and
+    # proofs for a list of ciphertexts (schedule dependent: several thread counts, repeated)
+    for ctx in ("B:%d" % P62, "M:%d" % P62):
+        P_, q_, g_ = pq(ctx); skv = r.randrange(1, q_); pk = str(pow(g_, skv, P_))
+        for n in (2, 24, 100 if env.quick else 400):
+            cs = [[str(rnd_member(r, ctx)), str(rnd_member(r, ctx))] for _ in range(n)]
+            want = [str(pow(int(c[1]), skv, P_)) for c in cs]
+            for threads in (2, 3, 7, 16):
+                for rep in range(2):
+                    c_ = {"ctx": ctx, "op": "km_decryption_factor_many", "args": [str(skv), cs, "x:6c", script(r, 64)], "tag": "rayon-factor-many"}
+                    o = env.harness([c_], features=("rayon",), env_extra={"RAYON_NUM_THREADS": str(threads)})[0]
+                    if not isinstance(o, list) or o[0] != want:
+                        env.violation("rayon build (threads=%d): decryption_factor_many output is not aligned with its input list on %s (n=%d)" % (threads, ctx, n),
+                                      {"kind": "battery", "case": c_, "threads": threads, "out": o if not isinstance(o, list) else o[0][:6], "expected": want[:6]})
+                        break
+                    v = env.harness([{"ctx": ctx, "op": "verify_decryption_factors", "args": [pk, cs, o[0], o[1], "x:6c"], "tag": "rayon-factor-many-verify"}])[0]
+                    if v is not True:
+                        env.violation("rayon build (threads=%d): proofs returned by decryption_factor_many do not verify position by position on %s (n=%d): %s" % (threads, ctx, n, v),
+                                      {"kind": "battery", "case": c_, "threads": threads})
+                        break
     # a sample of rayon outputs against the model
     sample = [c for c in corpus if c["op"] in ("ser_vec_e", "ser_vec_c", "shuffle_us", "joint_dec_many", "generators", "de_vec_x") and len(str(c["args"])) < 20000][:40]
     so = env.harness(sample, features=("rayon",), env_extra={"RAYON_NUM_THREADS": "7"})
